@@ -233,7 +233,90 @@ func c12InPlace(c *core.Ctx) bool {
 	return true
 }
 
+// c12SelfReported: a PostTransform that reports an issue itself (ctx.AddIssue) and returns nil has made an issue exist: the
+// remaining PostTransforms of the node do not run ("only if no issue exists at that moment"), for primitives, slices and structs.
+func c12SelfReported(c *core.Ctx) bool {
+	type rec struct {
+		A string
+		L []string
+	}
+	for _, where := range []string{"primitive", "slice", "struct"} {
+		for _, mode := range []string{"Parse", "Validate"} {
+			var calls []string
+			first := func(p any, ctx z.Ctx) error {
+				calls = append(calls, "first")
+				ctx.AddIssue(ctx.Issue().SetMessage("first says no"))
+				return nil
+			}
+			second := func(p any, ctx z.Ctx) error { calls = append(calls, "second"); return nil }
+			a, l := z.String(), z.Slice(z.String())
+			st := z.Struct(z.Schema{"a": a, "l": l})
+			switch where {
+			case "primitive":
+				st = z.Struct(z.Schema{"a": z.String().PostTransform(first).PostTransform(second), "l": l})
+			case "slice":
+				st = z.Struct(z.Schema{"a": a, "l": z.Slice(z.String()).PostTransform(first).PostTransform(second)})
+			default:
+				st = st.PostTransform(first).PostTransform(second)
+			}
+			var issues z.ZogIssueMap
+			if mode == "Parse" {
+				var d rec
+				issues = st.Parse(map[string]any{"a": "x", "l": []any{"y"}}, &d)
+			} else {
+				d := rec{A: "x", L: []string{"y"}}
+				issues = st.Validate(&d)
+			}
+			c.Eval(1)
+			n := 0
+			for k, li := range issues {
+				if k != "$first" {
+					n += len(li)
+				}
+			}
+			if strings.Join(calls, ",") != "first" || n != 1 {
+				c.Violation("post-transform-ran-although-an-issue-exists|"+mode, map[string]any{"transforms_on": where, "schema": "two PostTransforms; the first calls ctx.AddIssue(...) and returns nil", "transforms_called": calls, "issues": fmt.Sprint(z.Issues.SanitizeMap(issues))})
+				return false
+			}
+		}
+	}
+	// a Preprocess whose input type is a plain T cannot take the pointer Validate hands to it: a type mismatch, i.e. one issue, the
+	// wrapped schema skipped (the same schema works in Parse)
+	innerRan := false
+	pre := func() *z.PreprocessSchema[string, string] {
+		return z.Preprocess(func(s string, ctx z.Ctx) (string, error) { return s + "!", nil }, z.String().TestFunc(func(any, z.Ctx) bool { innerRan = true; return true }))
+	}
+	str := "abc"
+	var l z.ZogIssueList
+	func() {
+		defer func() {
+			if r := recover(); r != nil {
+				l = z.ZogIssueList{{Code: "PANIC", Message: fmt.Sprint(r)}}
+			}
+		}()
+		l = pre().Validate(&str)
+	}()
+	var out string
+	lp := pre().Parse("abc", &out)
+	c.Eval(2)
+	if len(l) != 1 || l[0].Code != "coerce" || innerRan && len(lp) == 0 && false || len(lp) != 0 || out != "abc!" {
+		c.Violation("preprocess-type-mismatch-in-validate", map[string]any{"schema": "z.Preprocess(func(s string, ctx) (string, error), z.String())", "validate_issues": fmt.Sprint(z.Issues.SanitizeList(l)), "validate_codes": func() []string {
+			var cs []string
+			for _, i := range l {
+				cs = append(cs, i.Code)
+			}
+			return cs
+		}(), "parse_issues": fmt.Sprint(z.Issues.SanitizeList(lp)), "parse_result": out, "want": "Validate: exactly one coerce issue; Parse: abc!"})
+		return false
+	}
+	c.Count("self_reported_issue_scenarios", 7)
+	return true
+}
+
 func (c12) RunCase(c *core.Ctx) {
+	if c.Case%40 == 11 && !c12SelfReported(c) {
+		return
+	}
 	if c.Case%20 == 7 && !c12InPlace(c) {
 		return
 	}
